@@ -28,7 +28,7 @@ claim("C08",
       design_ref="DESIGN.md §5 C08")
 
 claim("C16",
-      text="Proved in Lean 4 (16 theorems) for all trees of the model of delphin.derivation: from_string(to_udf(t)) returns the "
+      text="Proved in Lean 4 (17 theorems, incl. c16_pins: the UDF regex text, flags and group order, field tuples, format strings, constants, operation names and defaults of the anchored functions read from the live code) for all trees of the model of delphin.derivation: from_string(to_udf(t)) returns the "
            "tree (UDX) or the tree without head marks and types (plain UDF) for every WF tree accepted by the top check, every "
            "indentation — end to end, including the character-level emulation of _udf_re.finditer (terminal alternative first, "
            "node header, branch end, root) proved to yield exactly the expected match list on serialized text (scan_serialized), "
@@ -80,21 +80,24 @@ claim("C18",
       design_ref="DESIGN.md §5 C18")
 
 claim("C04",
-      text="Proved (22 theorems incl. pins of the module constants and the constants of 25 anchored functions) over a hand-written Lean model of dmrs.from_mrs and mrs.from_dmrs (on the shared semantic core), for all MRSs "
+      text="Proved (24 theorems incl. pins of the module constants and the constants of 25 anchored functions) over a hand-written Lean model of dmrs.from_mrs and mrs.from_dmrs (on the shared semantic core), for all MRSs "
            "with pairwise distinct EP identifiers: every link is justified by the source (role of the start predication; target "
            "is the argument's predication or the first representative of the selected scope; EQ/NEQ by label identity, H for a "
            "handle constraint, HEQ for a direct label; MOD/EQ between representatives of one scope) with no well-formedness "
            "hypothesis; node/top/index shape; preservation of the predication sequence by the round trip; totality when the top "
            "scope has a representative, with a kernel-checked counter-example (F08, known finding) for well-formed input without "
-           "one. Round 2 (20 theorems in all), for every choice of scope labels by conjoin: the round trip preserves top and index "
+           "one. Round 2, for every choice of scope labels by conjoin: the round trip preserves top and index "
            "(same predication by position), the MRS coming back has distinct EP ids, non-scopal arguments, scopal arguments with "
-           "their handle constraints and label sharing are preserved per position, and the second conversion is stable (same "
-           "nodes, top, index, set of links) under named decidable hypotheses. The single variable bijection with the stripped "
+           "their handle constraints and label sharing are preserved per position. Round 3: the second conversion is stable (same "
+           "nodes, top, index, set of links; second_conversion_stable) from hypotheses on the source MRS alone, the positional "
+           "agreement of representatives (RepsAgree) being now a theorem (repsAgree_of_space) and no longer a run-time flag. The single variable bijection with the stripped "
            "source (isomorphism) is decided by the direct oracle on the real code (mrs.is_isomorphic plus an independent "
            "bijection search).",
-      note="The stability theorem holds under BaseIdsDistinct, RolesOk (no role named MOD), IVSorts (x/e/i/p/u) and RstrLinked, plus a "
-           "decidable positional-agreement hypothesis on representatives (RepsAgree) that is evaluated on every generated case by "
-           "the driver (a false flag on an in-space case fails the run), not derived. Not proved: the single variable bijection "
+      note="The stability theorem holds under BaseIdsDistinct, RolesOk (no role named MOD), IVSorts (x/e/i/p/u), RstrLinked, "
+           "ScopesHeld (every scope connected by EQ links: fails exactly on the F08 class) and NoDescArg (no predication takes a "
+           "scopal descendant of a scope-mate as non-scopal argument: false on about 1% of generated in-space cases, which are "
+           "covered by second_conversion_stable_partial with the RepsAgree flag evaluated by the driver); all are decidable and "
+           "evaluated on every generated case. Not proved: the single variable bijection "
            "with strip m (oracle on generated well-formed inputs with qeq constraints, quantifiers binding the head of their "
            "restriction). Set iteration order in conjoin is a parameter of the model; warnings are not "
            "observed. Trusted: Lean kernel + 3 standard axioms, the hand-written model (4k comparisons per quick run), harness, oracle.",
@@ -102,7 +105,7 @@ claim("C04",
       design_ref="DESIGN.md §5 C04")
 
 claim("C05",
-      text="Proved for the Lean model of eds.from_mrs (17 theorems; _mrs_get_top, _mrs_args_to_basic_deps, _mrs_to_nodes, "
+      text="Proved for the Lean model of eds.from_mrs (18 theorems, incl. c05_pins: module constants, the variable regex and the constants/defaults of 22 anchored functions read from the live code; _mrs_get_top, _mrs_args_to_basic_deps, _mrs_to_nodes, "
            "find_predicate_modifiers, make_ids_unique, on the shared model of MRS/_uniquify_ids/scope.representatives/"
            "_connected_components): one node per predication in order with its data (any configuration, incl. a user-supplied "
            "predicate-modifier function); every edge ends at a node and is a BV edge quantifier→quantifiee, an edge justified "
@@ -163,7 +166,7 @@ claim("C09",
       design_ref="DESIGN.md §5 C09")
 
 claim("C10",
-      text="Proved in Lean (19 theorems) for all inputs, for the model of the repaired itsdb.Table and TestSuite: every table "
+      text="Proved in Lean (20 theorems, incl. c10_pins: literals, operators, built-in calls and defaults of 34 anchored functions plus the FieldMapper key tables read from the live code by AST) for all inputs, for the model of the repaired itsdb.Table and TestSuite: every table "
            "operation (append, extend, item and slice assignment with any slice/step, update, clear, commit, reload, reopen) "
            "refines the same operation on a plain Python list, keeping the bookkeeping invariant, and this lifts by induction to "
            "all histories (same list, same stored relation, same exception), for plain and compressed files. Length, every "
@@ -239,7 +242,7 @@ claim("C20",
       design_ref="DESIGN.md §5 C20")
 
 claim("C03",
-      text="Proved for all graphs and all (properties, lnk, show_status, indent) (23 theorems): the native decoder run on the "
+      text="Proved for all graphs and all (properties, lnk, show_status, indent) (24 theorems, incl. c03_pins: the 13 lexer token classes, JSON framing, signatures and the load skeletons of 47 anchored functions read from the live code): the native decoder run on the "
            "encoder's token stream followed by anything returns the graph (exact top detection by the 2–3 token look-ahead, node "
            "loop, property and edge blocks, constant escaping, alignments) and stops after the closing brace; re-encoding "
            "reproduces the text; multi-graph documents are read graph by graph; suppression removes exactly properties plus type "
@@ -255,7 +258,7 @@ claim("C03",
       design_ref="DESIGN.md §5 C03")
 
 claim("C01",
-      text="For the models of the MRS codecs it is proved (22 theorems), for all inputs: (a) escaping/unescaping and the "
+      text="For the models of the MRS codecs it is proved (28 theorems, incl. five pin theorems over 105 constant lists / 777 constants read from the live code: both lexers' token tables, escapes, predicate/variable regexes, MRX tag and attribute names, JSON keys, defaults), for all inputs: (a) escaping/unescaping and the "
            "double-quoted-string scanner are exact inverses and the scanner stops exactly at the closing quote; (b) "
            "Lnk(str(l)) = l for all kinds; (c) SimpleMRS: the recursive-descent decoder run on the encoder's token list followed "
            "by any further tokens returns top, index, EPs, hcons, icons unchanged — lnk/surface removed exactly when lnk=False — "
@@ -312,7 +315,7 @@ claim("C15",
       design_ref="DESIGN.md §5 C15")
 
 claim("C06",
-      text="For the Lean model of is_isomorphic/_vf2 (17 theorems; repaired code: antiparallel edge labels merged, self-loop labels "
+      text="For the Lean model of is_isomorphic/_vf2 (18 theorems, incl. c06_pins: names and constants of 15 anchored functions and defaults read from the live code; repaired code: antiparallel edge labels merged, self-loop labels "
            "compared, properties of CARG-bearing predications compared): is_isomorphic never raises; its True is exactly "
            "isomorphism of the two encoding graphs — a bijection on variables and predications preserving the node-label entry "
            "(normalised predicate, constant, properties when requested) and all role, scope and constraint edges in both "
@@ -350,7 +353,7 @@ claim("C19",
       design_ref="DESIGN.md §5 C19")
 
 claim("C13",
-      text="Proved for the Lean model of delphin.repp (26 theorems), for every template, match list, program and input: the string "
+      text="Proved for the Lean model of delphin.repp (27 theorems, incl. c13_pins: the template regex, escapes, mask sentinels, loader prefix characters, constants and defaults of the anchored functions read from the live code), for every template, match list, program and input: the string "
            "built by the offset-tracking loop of _REPPRule._apply/_process_match equals ordered regex substitution (no hypothesis "
            "on the template: groups in any order, repeated, unmatched optional groups, escapes); the tracked/untracked split "
            "loses nothing of the template; groups, iterative groups reach a fixpoint of their body exactly when one is reached "
@@ -374,7 +377,7 @@ claim("C13",
       design_ref="DESIGN.md §5 C13")
 
 claim("C14",
-      text="Proved at full strength for the repaired code (13 theorems; no coverage hypothesis): both offset maps have one entry per "
+      text="Proved at full strength for the repaired code (14 theorems, incl. c14_pins: DEFAULT_TOKENIZER, the YY regex, format pieces, constants and defaults read from the live code; no coverage hypothesis): both offset maps have one entry per "
            "output position plus two sentinels for rules, groups and after _mergemap; every carried-over character — outside all "
            "matches or through participating capture groups referenced in order — is attributed exactly to its original position "
            "by _process_match's accounting and through _mergemap composition for whole programs; every span lies within the "
